@@ -24,7 +24,7 @@ Proof.
     destruct (existsb _ _); [intros [= <-]; reflexivity|discriminate].
   - unfold remove_node. destruct (get_node h n); [|intros [= <-]; reflexivity].
     destruct (existsb _ _); [intros [= <-]; reflexivity|discriminate].
-  - unfold clone. destruct (clone_nodes _ _ _ _ _ _) as [[[a b] c]|]; [discriminate|intros [= <-]; reflexivity].
+  - unfold clone. destruct (clone_nodes _ _ _ _ _ _ _) as [[[a b] c]|]; [discriminate|intros [= <-]; reflexivity].
   - unfold roundtrip. destruct (rt_domain h); simpl; [|intros [= <-]; reflexivity].
     destruct (ser_ok h); simpl; [|intros [= <-]; reflexivity].
     destruct (rt_nodes _ _ _ _) as [a [[b c] d]]. discriminate.
@@ -300,25 +300,30 @@ Proof. vm_compute. repeat split. Qed.
 (* identity of configurations after clone: the clone registers the very same configuration objects, whatever the
    parameters, so the references of the cloned nodes stay registered *)
 Lemma clone_same_cfgs h deep allow : s_cfgs (fst (clone h deep allow)) = s_cfgs h.
-Proof. unfold clone. destruct (clone_nodes _ _ _ _ _ _) as [[[a b] c]|]; reflexivity. Qed.
+Proof. unfold clone. destruct (clone_nodes _ _ _ _ _ _ _) as [[[a b] c]|]; reflexivity. Qed.
 
 Lemma clone_deep_irrelevant h allow : clone h true allow = clone h false allow.
 Proof. reflexivity. Qed.
 
-(* unsorted main graph: node 0 reads the output of the later node 1.  clone() raises; with
-   allow_outer_scope_values the cloned node 0 keeps reading the ORIGINAL's value (C13's finding), its annotation on
-   that value follows — still an input of the node, DevInv and the check are fine *)
+(* unsorted main graph: node 0 reads the output b of the later node 1, node 1 reads a value d that no graph of the
+   model declares.  clone() raises for both reasons; with allow_outer_scope_values the use-before-definition of b
+   still raises (the clone never keeps a reference into the original graph), while after rewiring node 0 to the
+   graph input the genuinely foreign d is passed through and the annotation on it follows *)
 Definition uns_a := mkV 0 (Some 1).
 Definition uns_b := mkV 1 (Some 1).
 Definition uns_c := mkV 2 None.
+Definition uns_d := mkV 3 (Some 2).
 Definition uns_h0 : state :=
-  mkSt [(0, [97]); (1, [98]); (2, [99])]
-       [(0, mkN [Some uns_b] [uns_c] []); (1, mkN [Some uns_a] [uns_b] [])]
-       [uns_a] [] 3 0 11 (mkSc 1 [] []).
+  mkSt [(0, [97]); (1, [98]); (2, [99]); (3, [100])]
+       [(0, mkN [Some uns_b] [uns_c] []); (1, mkN [Some uns_a; Some uns_d] [uns_b] [])]
+       [uns_a] [] 4 0 11 (mkSc 1 [] []).
 Example uns_clone :
-  let h := run uns_h0 [OAddCfg [120] 2; OShard 0 uns_b (mkC 0 [120] 2) 0 2 [] None] in
-  snd (clone h false false) = Raise RuntimeError /\ snd (clone h true true) = Ok tt
-  /\ map (fun p => n_in (snd p)) (s_nodes (fst (clone h true true))) = [[Some uns_b]; [Some (mkV 3 (Some 1))]]
-  /\ sharding_of (snd (nth 0 (s_nodes (fst (clone h true true))) (0, mkN [] [] []))) uns_b <> []
-  /\ check (fst (clone h true true)) = [].
+  let h := run uns_h0 [OAddCfg [120] 2; OShard 1 uns_d (mkC 0 [120] 2) 0 2 [] None] in
+  let h2 := run h [OReplaceInput 0 0 (Some uns_a)] in
+  snd (clone h false false) = Raise RuntimeError /\ snd (clone h true true) = Raise RuntimeError
+  /\ snd (clone h2 false false) = Raise RuntimeError /\ snd (clone h2 true true) = Ok tt
+  /\ map (fun p => n_in (snd p)) (s_nodes (fst (clone h2 true true)))
+     = [[Some (mkV 4 (Some 1))]; [Some (mkV 4 (Some 1)); Some uns_d]]
+  /\ sharding_of (snd (nth 1 (s_nodes (fst (clone h2 true true))) (0, mkN [] [] []))) uns_d <> []
+  /\ check (fst (clone h2 true true)) = [].
 Proof. vm_compute. repeat split; discriminate. Qed.
